@@ -251,6 +251,26 @@ theorem pipe_protocol_delivers (cap : Nat) (hcap : 0 < cap) (P O E : List Nat) (
     (s.pPhase = .joined → s.gotIn = P ∧ s.gotOut = O ∧ s.gotErr = E ∧ s.code = some c) :=
   ⟨progress (Inv.reach h) hcap, fun _ hs => step_decreases hs, delivered (Inv.reach h)⟩
 
+open Kernel in
+/-- total correctness in the pipe model: a run of `n` steps has `n <= 2|P| + 2|O| + 2|E| + 7`, and a state in
+    which no step is possible is one in which `join` has returned with everything delivered -/
+theorem pipe_protocol_total (cap : Nat) (hcap : 0 < cap) (P O E : List Nat) (c : Nat) (n : Nat) (s : Sys)
+    (h : ReachN (Sys.init cap P O E c) n s) :
+    n ≤ 2 * P.length + 2 * O.length + 2 * E.length + 7 ∧
+    ((∀ s', ¬ Step s s') → s.pPhase = .joined ∧ s.gotIn = P ∧ s.gotOut = O ∧ s.gotErr = E ∧ s.code = some c) := by
+  refine ⟨?_, fun hstuck => ?_⟩
+  · have := h.bound
+    simp [Sys.measure, Sys.init, pRank, cRank, b2n] at this
+    omega
+  · have hr := h.reach
+    have hd := pipe_protocol_delivers cap hcap P O E c s hr
+    have hj : s.pPhase = .joined := by
+      cases hp : s.pPhase with
+      | joined => rfl
+      | writing => obtain ⟨s', hs'⟩ := hd.1 (by simp [hp]); exact absurd hs' (hstuck s')
+      | draining => obtain ⟨s', hs'⟩ := hd.1 (by simp [hp]); exact absurd hs' (hstuck s')
+    exact ⟨hj, hd.2.2 hj⟩
+
 -- the hypotheses are satisfiable: descriptors 3..8 on a table with 0, 1, 2; a three-step run
 example : (Kernel.Fresh.mk 3 4 5 6 7 8).Ok (fun x => if x < 3 then some (.other x) else none) := by
   refine ⟨by decide, ?_⟩
